@@ -68,7 +68,7 @@ def generate(rng, tier):
     elif cls in ("frame", "geojson"):
         nrow = rng.choice([0, 1, 2, 5, 12, 120])
         ncol = rng.choice([0, 1, 2, 4, 8]) if cls == "frame" else rng.choice([0, 1, 3])
-        names = rng.sample(["a", "b", "c", "value", "long_column_name_here", "日本", "ｗｉｄｅ", "x y", "é", "k1", "k2", "n"], ncol)
+        names = rng.sample(["a", "b", "c", "value", "long_column_name_here", "日本", "ｗｉｄｅ", "x y", "é", "k1", "k2", "n", "\u2764\ufe0f"], ncol)
         spec = [(nm, k, _values(rng, k, nrow)) for nm, k in ((nm, rng.choice(KINDS)) for nm in names)]
         case["spec"] = spec
         opts = {}
